@@ -5,7 +5,7 @@ s1=open('/verif/notes/design_s1.md').read()
 s21=open('/verif/notes/design_s21.md').read()
 # amend R16 row and the "not built" notes
 s21=s21.replace("| R16 *(stretch)* | closure conversion: `iter::from_fn(move \\|\\| BODY)` ⇒ a named struct holding the captured variables (types from the side-car, checked by rustc) with `fn next(&mut self)` whose body is `BODY` with captures prefixed by `self.` | would bring `find_words_ascii_space`, `break_apart`, `split_words` into reach | only with the fidelity guard; not prototyped |",
-"| R16 | closure conversion (**built**, `//@closure <ordinal> self=a,b :: <fn header>`): the body of the n-th closure of the function (`iter::from_fn(move \\|\\| BODY)`, `.filter(\\|x\\| BODY)`, `.find(\\|x\\| BODY)`) is verified as a method of a struct holding the captured variables: same tokens, captured identifiers prefixed by `self.` (field types come from the side-car and are checked by rustc); the enclosing function becomes the struct's constructor | brings `find_words_ascii_space` (U13), `split_words` (U14), `Word::break_apart` (U15) and the three closures of `find_words_unicode_break_properties` (U20) into reach | that `from_fn`/`collect` call `next` until `None` and keep the items in order is std behaviour (A4) |")
+"| R16 | closure conversion (**built**, `//@closure <ordinal> self=a,b :: <fn header>`): the body of the n-th closure of the function (`iter::from_fn(move \\|\\| BODY)`, `.filter(\\|x\\| BODY)`, `.find(\\|x\\| BODY)`) is verified as a method of a struct holding the captured variables: same tokens, captured identifiers prefixed by `self.` (field types come from the side-car and are checked by rustc); the enclosing function becomes the struct's constructor | brings `find_words_ascii_space` (U13), `split_words` (U14), `Word::break_apart` (U15) and the three closures of `find_words_unicode_break_properties` (U20) into reach | that `from_fn`/`collect` call `next` until `None` and keep the items in order is std behaviour (A4) |\n| R17 | `RefCell<Vec<usize>>` ⇒ `Vec<usize>`, `&self` ⇒ `&mut self`, `.borrow()` / `.borrow_mut()` dropped (`LineNumbers`, U23) | no RefCell support | exact as long as no two borrows overlap: each is a temporary that dies within its own statement, none is alive across the recursive call |")
 props_text={}
 for l in open('/verif/properties.jsonl'):
     d=json.loads(l); props_text[d['id']]=d['statement']
@@ -37,7 +37,7 @@ seeded changes and which check catches which in §11.
   invariants, ghost state, lemmas. One contract set, several back ends, strongest first:
   1. **Verus** (unbounded, deductive) on function text **extracted mechanically from `/repo/src` on every run**,
      rewritten only by a fixed, logged list of token-level rules (§2.2), with contracts merged in from side-car files in
-     `/verif/contracts/`. 20 units, ≈ 60 extracted items (functions, closures, types), ≈ 330 verified functions and lemmas (Verus's "verified"
+     `/verif/contracts/`. 21 units, ≈ 60 extracted items (functions, closures, types), ≈ 330 verified functions and lemmas (Verus's "verified"
      count) carrying ≈ 650 contract clauses, 1–4 s per unit.
   2. **Kani, loop-free / full domain** (complete): `ch_width(c) <= c.len_utf8()` for every `char`, both feature sets (K1).
   3. **Kani, bounded**: `wrap_first_fit` with bit-precise IEEE-754 floats, 3 fragments (K2, thorough tier of C07) — labelled *bounded*.
@@ -70,6 +70,7 @@ seeded changes and which check catches which in §11.
   | U18 | `refill::unfill` | indents are prefixes made of prefix characters; no inner line break; line-ending rule; all slices safe | C15, C04 |
   | U20 | `word_separators::find_words_unicode_break_properties` (three closures, R16) | the boundaries are exactly the kept UAX #14 opportunities (relative to the assumed shape of `unicode_linebreak::linebreaks`), one each, in order, mapped back outside escape sequences; words tile the line | C11, C13, C01 |
   | U21 | `refill::refill` | `refill(x, o2) == fill(unfill(x).text minus final ending, o2 with unfill(x)'s indents) ++ ending` | C16, C04 |
+  | U23 | `optimal_fit::LineNumbers::{new, get}` (RefCell memo, rewrite R17) | terminates, no panic, returns the number of back-pointer hops — for every table of smawk's shape | C03, C06, C04 |
   | U22 | `options.rs`: `Options::new`, `From<&Options>`, `From<usize>`, the eight setters | the by-reference conversion copies every option unchanged; documented defaults; each setter changes exactly its field | C09, C08, C02, C04 |
   | K1 | `core::ch_width` | `ch_width(c) <= c.len_utf8()` for all 1,112,064 scalar values (Kani, loop-free) | C10, C05, C04 |
 
@@ -79,7 +80,7 @@ seeded changes and which check catches which in §11.
 * **What stays bounded.** Optimality proper in C03 (needs real arithmetic and total monotonicity), the relational
   statements (C09 independence, C13 end to end, C14, the round trip of C15/C16, agreement of `fill_inplace` with `wrap`,
   C08's second sentence), the real
-  tables of `unicode-linebreak` / `unicode-width` / `smawk` behind the assumed shapes, `LineNumbers`.
+  tables of `unicode-linebreak` / `unicode-width` / `smawk` behind the assumed shapes.
 * **Robustness of the machinery** (§8, §11): 77 seeded property-breaking changes that compile and pass the upstream suite
   (5 reverted fixes + 72 from independent sub-agents in four waves) are all reported; 25 behaviour-preserving refactors
   raise no alarm; every unit verifies under 8 different SMT seeds; the unchanged tree passes all 20 checks in both tiers.
@@ -285,7 +286,7 @@ repairs before they were committed.
   statements / conjuncts / declarations, flipped comparisons, inverted `if/else`, expanded `+=`, literal for const,
   `f64::max` call form): **0 false alarms**, 23 verify, 2 undecided (`f64::max(a, b)` call form has no rule; an inverted
   `if/else` whose both branches carry annotations loses an anchor).
-* **SMT-seed stability** (`tools/stability.py`): all 20 units verify under Z3 random seeds 1–8 (max rlimit 17 M for U5 and
+* **SMT-seed stability** (`tools/stability.py`): all 21 units verify under Z3 random seeds 1–8 (max rlimit 17 M for U5 and
   U11). U1 was restructured around an opaque state predicate with step lemmas after it failed under two seeds; a U11
   lemma was split in three for the same reason.
 * **Seeded property-breaking changes**: §11.
